@@ -505,6 +505,8 @@ impl Adf {
     where
         H: Fn(&Self, (Var, Term), (Var, Term), &[Term]) -> std::cmp::Ordering + Copy,
     {
+        #[cfg(adf_obdd_verif)]
+        verif_trace::visit(interpr, will_be, depth);
         log::debug!("two_val_model_recursion_depth: {}/{}", depth, interpr.len());
         if let Some((idx, ac)) = interpr
             .iter()
@@ -1413,6 +1415,31 @@ pub mod verif_trace {
         SINK.with(|s| {
             if let Some(v) = s.borrow_mut().as_mut() {
                 v.push(None);
+            }
+        });
+    }
+
+    /// One entry of the counting-guided search recursion: (interpretation, will_be, depth).
+    pub type Visit = (Vec<Term>, Vec<Term>, usize);
+
+    thread_local! {
+        static VISITS: RefCell<Option<Vec<Visit>>> = const { RefCell::new(None) };
+    }
+
+    /// Installs an empty sink for the recursion entries of the counting-guided search on the current thread.
+    pub fn install_visits() {
+        VISITS.with(|s| *s.borrow_mut() = Some(Vec::new()));
+    }
+
+    /// Removes that sink and returns what was recorded.
+    pub fn take_visits() -> Vec<Visit> {
+        VISITS.with(|s| s.borrow_mut().take().unwrap_or_default())
+    }
+
+    pub(crate) fn visit(interpr: &[Term], will_be: &[Term], depth: usize) {
+        VISITS.with(|s| {
+            if let Some(v) = s.borrow_mut().as_mut() {
+                v.push((interpr.to_vec(), will_be.to_vec(), depth));
             }
         });
     }
